@@ -246,6 +246,23 @@ fn jtext() -> impl Strategy<Value = String> {
     ]
 }
 
+/// MDC maps; now and then with keys that differ from another key only in letter case or by a compatibility look-alike
+/// (`requestId` / `requestid`, KELVIN SIGN / `K` / `k`): they are different keys
+fn mdc_map() -> impl Strategy<Value = Vec<(String, String)>> {
+    (prop::collection::vec((jtext(), jtext()), 0..=5), prop::option::weighted(0.25, (prop::sample::select(vec!["requestId", "ID", "\u{212a}ey", "Stra\u{df}e", "\u{3a3}x", "a"]), jtext(), jtext(), jtext()))).prop_map(|(mut v, twins)| {
+        if let Some((k, v1, v2, v3)) = twins {
+            let lower = k.to_lowercase();
+            let upper = k.to_uppercase();
+            for (kk, vv) in [(k.to_string(), v1), (lower, v2), (upper, v3)] {
+                if !v.iter().any(|(x, _)| *x == kk) {
+                    v.push((kk, vv));
+                }
+            }
+        }
+        v
+    })
+}
+
 fn jpieces() -> impl Strategy<Value = Vec<String>> {
     (jtext(), prop::collection::vec(any::<u16>(), 0..=3), prop::bool::weighted(0.2)).prop_map(|(s, cuts, per_char)| {
         let chars: Vec<char> = s.chars().collect();
@@ -309,10 +326,10 @@ pub fn strategy() -> impl Strategy<Value = Case> {
             0u8..5,
             jpieces(),
             jtext(),
-            prop::option::weighted(0.6, jtext()),
-            prop::option::weighted(0.6, jtext()),
+            prop::option::weighted(0.6, prop_oneof![4 => jtext(), 1 => prop::sample::select(crate::pat::STATIC_SITES.to_vec()).prop_map(|s| s.to_string())]),
+            prop::option::weighted(0.6, prop_oneof![4 => jtext(), 1 => prop::sample::select(crate::pat::STATIC_SITES.to_vec()).prop_map(|s| s.to_string())]),
             prop::option::weighted(0.6, prop_oneof![Just(0u32), Just(u32::MAX), any::<u32>()]),
-            prop::collection::vec((jtext(), jtext()), 0..=5),
+            mdc_map(),
         ),
         prop::option::weighted(0.3, jtext().prop_filter("thread names cannot hold NUL", |s| !s.contains('\0'))),
         crate::pat::write_script(),
@@ -562,7 +579,7 @@ pub fn replay(part: &str, case: serde_json::Value) -> Option<CaseResult> {
 pub fn meta() -> EvidenceMeta {
     EvidenceMeta {
         level: "exploration",
-        rule: "cases = generated records (5 levels; message in 1-4 pieces; strings biased towards quote, backslash, slash, U+0000-001F, U+007F, U+0085, U+2028/9, non-BMP, combining marks, arbitrary chars, and >=1 KiB repetitions; optional fields present/absent; MDC maps of 0-5 entries with such keys/values; main or named thread; scripted short writes); oracle = output is exactly one line (final newline, no byte < 0x20 before it), parses with the harness's own strict RFC 8259 parser (rejects raw controls, duplicate keys, trailing garbage) and with serde_json, every documented field equals the record's value exactly, absent optional fields are omitted, time is RFC 3339 inside the encode bracket, no undocumented key; In 20% of the messages every character is delivered on its own (the way char arguments arrive); in 30% of the cases the same thread first encodes a record whose MDC holds the same bytes with every key/value boundary moved by one character. The first message argument may insert an MDC entry while it is being formatted (the line stays one well-formed object); no style request may reach the writer. Text fields may hold one uninterrupted plain run of 8-20 kB; the encoder is built by JsonEncoder::new(), Default::default() or the kind: json deserializer; the sink may answer write calls with ErrorKind::Interrupted. non-trivial = some string needs escaping or an optional field is absent; distinct = FNV hash of the case".into(),
+        rule: "cases = generated records (5 levels; message in 1-4 pieces; strings biased towards quote, backslash, slash, U+0000-001F, U+007F, U+0085, U+2028/9, non-BMP, combining marks, arbitrary chars, and >=1 KiB repetitions; optional fields present/absent; MDC maps of 0-5 entries with such keys/values (a quarter of them also hold keys that differ only in letter case or by a compatibility look-alike); module path and file may be `&'static str`s handed over through module_path_static / file_static (backslashes, quotes, controls); main or named thread; scripted short writes); oracle = output is exactly one line (final newline, no byte < 0x20 before it), parses with the harness's own strict RFC 8259 parser (rejects raw controls, duplicate keys, trailing garbage) and with serde_json, every documented field equals the record's value exactly, absent optional fields are omitted, time is RFC 3339 inside the encode bracket, no undocumented key; In 20% of the messages every character is delivered on its own (the way char arguments arrive); in 30% of the cases the same thread first encodes a record whose MDC holds the same bytes with every key/value boundary moved by one character. The first message argument may insert an MDC entry while it is being formatted (the line stays one well-formed object); no style request may reach the writer. Text fields may hold one uninterrupted plain run of 8-20 kB; the encoder is built by JsonEncoder::new(), Default::default() or the kind: json deserializer; the sink may answer write calls with ErrorKind::Interrupted. non-trivial = some string needs escaping or an optional field is absent; distinct = FNV hash of the case".into(),
         assumptions: vec!["'control character' = U+0000-U+001F (JSON's own definition); U+007F/U+0085/U+2028/9 are legal raw and only counted".into()],
         mutants_caught: vec![],
     }
